@@ -676,7 +676,8 @@ func (w *World) streamOp(ci int, conn *rpc.Conn, op *Op) {
 			}
 			rec.Readers++
 			rec.ClientBlocked = true
-			err := rec.stream.ReadMessage(nil, arg)
+			rec.reads++
+			err := rec.stream.ReadMessage(readBuf(rec.Plan.RBuf, rec.reads), arg)
 			rec.Readers--
 			rec.ClientBlocked = rec.Readers > 0
 			if err != nil {
